@@ -1,5 +1,6 @@
 import PB.Model.Subs
 import PB.Model.SubsConc
+import PB.Model.HooksConc
 import PB.Drv.Loop
 /- Driver for C14: one database operation per line on the sequential model (`PB.Subs`), and an acceptor for
    recorded concurrent traces (`ev …` / `obs …` lines) on the interleaving model (`PB.SubsConc`). -/
@@ -73,7 +74,7 @@ def parseQuery (pre : String) (toks : List String) : Option Query :=
     | some (c, []) => some (mkQuery p (some c))
     | _ => none
 
-/-- Interface option code: base letters L I S C (or "-"), optional "+w" (delayed writes). -/
+/-- Interface option code: base letters L I S C E (or "-"), optional "+w" (delayed writes). -/
 def parseIface (code : String) : Option Opts :=
   let (base, delayed) := match code.splitOn "+" with
     | [b] => (b, some false)
@@ -83,10 +84,11 @@ def parseIface (code : String) : Option Opts :=
   | none => none
   | some d =>
     if base == "-" then (if d then none else some { loc := false, int := false })
-    else if base == "" || !(base.toList.all (fun c => "LISC".toList.contains c)) then none
+    else if base == "" || !(base.toList.all (fun c => "LISCE".toList.contains c)) then none
     else if d && base != "LI" then none
     else some { loc := base.toList.contains 'L', int := base.toList.contains 'I',
-                alwaysSecret := base.toList.contains 'S', alwaysCJ := base.toList.contains 'C', delayed := d }
+                alwaysSecret := base.toList.contains 'S', alwaysCJ := base.toList.contains 'C', delayed := d,
+                alwaysExp := base.toList.contains 'E' }
 
 def parseFlags (f : String) : Meta :=
   let l := f.toList
@@ -131,6 +133,9 @@ structure D where
   behs : List (Nat × String × String × String) := []
   sids : List Nat := []
   conc : PB.SubsConc.Acc := {}
+  hconc : PB.HooksConc.HAcc := {}
+  /-- which acceptor the `ev` / `obs` lines of the current case go to: the `hconc` header selects the hook protocol -/
+  hmode : Bool := false
 
 def fmtCall (d : D) (c : Call) : String :=
   let (pg, og, pp) := match d.behs.find? (·.1 == c.hook) with
@@ -147,6 +152,9 @@ def fmtErr : Err → String
 
 def fmtOut (d : D) (o : Out) : String :=
   let cs := String.join (o.calls.map (fun c => " " ++ fmtCall d c))
+  match o.flag, o.res with
+  | some b, .ok _ => (if b then "ok true" else "ok false") ++ cs
+  | _, _ =>
   match o.res with
   | .ok none => "ok" ++ cs
   | .ok (some r) => "ok " ++ fmtRec r ++ cs
@@ -186,9 +194,19 @@ def handle (d : D) (line : String) : D × String :=
   let bad := (d, "bad-op")
   let w := PB.Drv.words line
   match w with
-  | "ev" :: _ | "obs" :: _ | "conc" :: _ | "cs" :: _ | "cw" :: _ =>
+  | "hconc" :: _ | "ch" :: _ | "cr" :: _ | "cg" :: _ =>
+    let (a, o) := PB.HooksConc.accept d.hconc w parseQuery parseRecSpec
+    ({ d with hconc := a, hmode := true }, o)
+  | "conc" :: _ | "cs" :: _ | "cw" :: _ =>
     let (a, o) := PB.SubsConc.accept d.conc w parseSpec parseRecSpec
-    ({ d with conc := a }, o)
+    ({ d with conc := a, hmode := false }, o)
+  | "ev" :: _ | "obs" :: _ =>
+    if d.hmode then
+      let (a, o) := PB.HooksConc.accept d.hconc w parseQuery parseRecSpec
+      ({ d with hconc := a }, o)
+    else
+      let (a, o) := PB.SubsConc.accept d.conc w parseSpec parseRecSpec
+      ({ d with conc := a }, o)
   | ["db", kind, sh] =>
     if d.st.isSome || !(sh == "0" || sh == "1") then bad else
     let k : Option Kind := match kind with
@@ -220,6 +238,14 @@ def handle (d : D) (line : String) : D × String :=
   | ["drain"] =>
     let (st', o) := step st .drain
     ({ d with st := some st' }, fmtFeeds o.feeds)
+  | ["drain1", sid] =>
+    match sid.toNat? with
+    | some id =>
+      if d.sids.contains id then
+        let (st', o) := step st (.drainOne id)
+        ({ d with st := some st' }, fmtFeeds o.feeds)
+      else bad
+    | none => bad
   | ["hook", hid, qid, pg, og, pp] =>
     match hid.toNat?, d.queries.find? (·.1 == qid), parseBeh false pg, parseBeh true og, parseBeh true pp with
     | some id, some (_, q), some bpg, some bog, some bpp =>
@@ -234,10 +260,13 @@ def handle (d : D) (line : String) : D × String :=
     | some id => if (d.behs.find? (·.1 == id)).isSome then doOp d st (.cancelHook id) else bad
     | none => bad
   | [op, ic, key, n, s, fl] =>
-    if !(op == "put" || op == "putnew") then bad else
+    if !(op == "put" || op == "putnew" || op == "putmany") then bad else
     match parseIface ic, n.toInt? with
     | some o, some n =>
       if !okKey key || !okStr s || !okFlags fl then bad
+      else if op == "putmany" then
+        (if o.delayed || !(st.cfg.kind == .hashmap || st.cfg.kind == .bbolt) then bad
+         else doOp d st (.putMany o [⟨key, n, s, parseFlags fl⟩]))
       else if o.delayed && (op != "put" || !(st.cfg.kind == .hashmap || st.cfg.kind == .bbolt)) then bad
       else doOp d st (.put o ⟨key, n, s, parseFlags fl⟩ (op == "putnew"))
     | _, _ => bad
@@ -254,6 +283,7 @@ def handle (d : D) (line : String) : D × String :=
       | "mksec" => doOp d st (.modify o key .mksec)
       | "mkcj" => doOp d st (.modify o key .mkcj)
       | "get" => doOp d st (.get o key)
+      | "exists" => doOp d st (.exists_ o key)
       | _ => bad
     | none => bad
   | [op, ic, key, v] =>
@@ -263,6 +293,7 @@ def handle (d : D) (line : String) : D × String :=
       match op with
       | "exp" => if v == "p" then doOp d st (.modify o key (.exp 1)) else if v == "f" then doOp d st (.modify o key (.exp 2)) else bad
       | "ins" => match v.toInt? with | some n => doOp d st (.modify o key (.ins n)) | none => bad
+      | "relexp" => if v == "0" || v == "-1" then doOp d st (.modify o key .touch) else bad
       | _ => bad
     | none => bad
   | ["raw", key] =>
